@@ -374,7 +374,7 @@ def build_states(tier, seed, shipped, runs=None):
     return states, exhaustive
 
 
-def real_import(scratch, build_env, optimize=False):
+def real_import(scratch, build_env, optimize=False, no_bytecode=False):
     """Layer (c): a genuinely separate interpreter (optionally started with -O)."""
     e = dict(os.environ)
     e["PYTHONPATH"] = scratch
@@ -392,7 +392,7 @@ def real_import(scratch, build_env, optimize=False):
         "from checks.c19_crash import canon_table, probe_functions\n"
         "import json; print('RESULT', json.dumps({'table': canon_table(tp), 'probe': probe_functions(tp), 'file': dateparser.__file__}))\n"
     ) % (scratch, env.VERIF_DIR)
-    pr = subprocess.run([sys.executable] + (["-O"] if optimize else []) + ["-c", code], env=e, capture_output=True, text=True, timeout=120, cwd="/")
+    pr = subprocess.run([sys.executable] + (["-O"] if optimize else []) + (["-B"] if no_bytecode else []) + ["-c", code], env=e, capture_output=True, text=True, timeout=120, cwd="/")
     out = {"rc": pr.returncode, "err": pr.stderr.strip().splitlines()[-1:] if pr.returncode else []}
     for line in pr.stdout.splitlines():
         if line.startswith("RESULT "):
@@ -414,10 +414,10 @@ def run_real(p):
     else:
         with open(cache, "wb") as f:
             f.write(data)
-    r1 = real_import(scratch, p["build_env"], p.get("optimize", False))
+    r1 = real_import(scratch, p["build_env"], p.get("optimize", False), p.get("no_bytecode", False))
     c1 = _file_complete_subprocess(scratch)
-    r2 = real_import(scratch, p["build_env"], p.get("optimize", False))
-    return {"state": p["state"], "build_env": p["build_env"], "optimize": p.get("optimize", False), "r1": r1, "complete1": c1, "r2": r2}
+    r2 = real_import(scratch, p["build_env"], p.get("optimize", False), p.get("no_bytecode", False))
+    return {"state": p["state"], "build_env": p["build_env"], "optimize": p.get("optimize", False), "no_bytecode": p.get("no_bytecode", False), "r1": r1, "complete1": c1, "r2": r2}
 
 
 CRASHER = r"""
@@ -637,7 +637,9 @@ def explore(args, rep, base, shipped, tier, seed):
         real_payloads[1] = {"scratch": base, "state": {"kind": "missing"}, "build_env": False}
         for i_, rp_ in enumerate(real_payloads):
             rp_["optimize"] = (i_ % 3 == 2)  # a third of the real interpreters run with -O (asserts compiled away)
+            rp_["no_bytecode"] = (i_ % 3 == 1)  # another third with -B (sys.dont_write_bytecode)
         real_payloads[2] = {"scratch": base, "state": {"kind": "missing"}, "build_env": False, "optimize": True}
+        real_payloads[3] = {"scratch": base, "state": {"kind": "empty"}, "build_env": False, "no_bytecode": True}
         rres = farm.map("checks.c19_crash:run_real", real_payloads, timeout=300)
         n_real_ok = 0
         for p, (st, val) in zip(real_payloads, rres):
@@ -657,7 +659,7 @@ def explore(args, rep, base, shipped, tier, seed):
             elif val["r2"].get("table") != ref["table"]:
                 bad.append(("I4-second-table-differs", ""))
             if bad:
-                sig = {"layer": "c", "state_kind": val["state"]["kind"], "invariant": bad[0][0], "detail": bad[0][1], "python_O": val.get("optimize", False)}
+                sig = {"layer": "c", "state_kind": val["state"]["kind"], "invariant": bad[0][0], "detail": bad[0][1], "python_O": val.get("optimize", False), "python_B": val.get("no_bytecode", False)}
                 rep.violation(sig, {"layer": "c", "run": "real-%s-%s" % (val["state"]["kind"], val["state"].get("k", "")), "state": val["state"], "build_env": val["build_env"], "seed": seed, "broken": bad}, "real interpreter, state %r: %s" % (val["state"], bad))
         # layer (d): real crash in the middle of the write, then real imports
         drng = seeds.rng_for(seed, PROP, "crash")
